@@ -49,14 +49,24 @@ class ProtocolType(Protocol):
     VERSION: str
 
 
+def _major_minor(version: str) -> tuple[int, int]:
+    """Return the major and minor parts of a version as integers."""
+    awesome_version = AwesomeVersion(version)
+    major, minor = awesome_version.major, awesome_version.minor
+    if major is None:
+        raise ValueError(f"Invalid protocol version: {version!r}")
+    return int(major), int(minor) if minor is not None else 0
+
+
 @cache
 def get_protocol(protocol_version: str) -> ProtocolType:
     """Return the protocol module for the protocol_version."""
+    major_minor = _major_minor(protocol_version)
     module = next(
         (
             PROTOCOL_VERSIONS[_protocol_version]
             for _protocol_version in sorted(PROTOCOL_VERSIONS, reverse=True)
-            if AwesomeVersion(protocol_version) >= AwesomeVersion(_protocol_version)
+            if major_minor >= _major_minor(_protocol_version)
         ),
         protocol_14,
     )
